@@ -842,7 +842,6 @@ class CommitHandler(processor.CommitHandler):
             )
             return
         ie = inv.get_entry(file_id)
-        rev_id = ie.revision
         new_file_id = inv.path2id(new_path)
         if new_file_id is not None:
             self.record_delete(new_path, inv.get_entry(new_file_id))
@@ -851,7 +850,10 @@ class CommitHandler(processor.CommitHandler):
         # The revision-id for this entry will be/has been updated and
         # that means the loader then needs to know what the "new" text is.
         # We therefore must go back to the revision store to get it.
-        lines = self.rev_store.get_file_lines(rev_id, old_path)
+        # old_path is a path of the basis inventory: in the revision that
+        # last changed the entry (ie.revision) it may not exist, e.g. after a
+        # directory above it was renamed.
+        lines = self.rev_store.get_file_lines(self.parents[0], old_path)
         self.data_for_commit[file_id] = b"".join(lines)
 
     def _delete_all_items(self, inv: inventory.Inventory) -> None:
